@@ -42,7 +42,7 @@ type Case struct {
 }
 
 type outcome struct {
-	ops      []rpcsim.OpRec
+	ops            []rpcsim.OpRec
 	pendingAtFault int
 }
 
@@ -320,6 +320,60 @@ func run(c Case) (pbt.Result, error) {
 			}
 		}
 	}
+	// Close at every step: every prefix of the scenario, then the Close sequence (no transport fault)
+	closes := 0
+	if c.OnlyIndex < 0 {
+		for k := 0; k < len(c.Steps); k++ {
+			pc := c
+			pc.Steps = c.Steps[:k]
+			o, err := runOnce(pc, nil)
+			closes++
+			if err != nil {
+				if v, ok := err.(*pbt.Violation); ok {
+					v.Sig = v.Sig + "/close-at-step"
+					v.Msg = fmt.Sprintf("Close injected after step %d of %d (no transport fault)\n%s", k, len(c.Steps), v.Msg)
+				}
+				return res, err
+			}
+			if o.pendingAtFault > 0 {
+				pending = true
+			}
+		}
+	}
+	// cancellation at every step: for every position after an application call was made, the oldest and the newest
+	// call issued so far are cancelled there (no transport fault)
+	cancels := 0
+	if c.OnlyIndex < 0 {
+		ncalls := 0
+		for k := 0; k <= len(c.Steps); k++ {
+			if k > 0 && (c.Steps[k-1].K == "app-call" || c.Steps[k-1].K == "app-pipeline") {
+				ncalls++ // upper bound: a step may have been skipped for lack of a target
+			}
+			if ncalls == 0 {
+				continue
+			}
+			for _, j := range []int{0, ncalls - 1} {
+				if j == 0 && ncalls > 1 || j == ncalls-1 {
+					pc := c
+					pc.Steps = append(append(append([]Step(nil), c.Steps[:k]...), Step{K: "app-cancel", A: j}), c.Steps[k:]...)
+					o, err := runOnce(pc, nil)
+					cancels++
+					if err != nil {
+						if v, ok := err.(*pbt.Violation); ok {
+							v.Sig = v.Sig + "/cancel-at-step"
+							v.Msg = fmt.Sprintf("cancellation of call %d injected before step %d of %d (no transport fault)\n%s", j, k, len(c.Steps), v.Msg)
+						}
+						return res, err
+					}
+					if o.pendingAtFault > 0 {
+						pending = true
+					}
+				}
+			}
+		}
+	}
+	res.Count("cancel_points", int64(cancels))
+	res.Count("close_points", int64(closes))
 	res.Count("fault_points", int64(points))
 	res.Count("scenarios_exhaustive", 1)
 	res.Class("close-mode:%d", c.CloseMode%4)
@@ -346,8 +400,8 @@ var firstKinds = []string{"app-bootstrap", "app-bootstrap", "app-bootstrap", "pe
 
 var _ = pbt.Register(pbt.Spec[Case]{
 	Property: "C09", Name: "fault-enumeration",
-	Rule:     "base scenario = 2-10 drawn steps (local Bootstrap, calls with and without capability params, pipelined calls, cancellations, releases; peer Bootstrap, calls returning at once / held / returning a new capability, Finish, Return with capability or exception; gate openings; barriers). The scenario is first run fault-free to count its transport operations N, then re-run once for EVERY operation index 0..N-1 and every fault kind applicable to that operation (error from NewMessage, error from send, error or EOF from RecvMessage): exhaustive per scenario. Each run ends with Close once / twice / three times / three times concurrently. Oracle per run: every API call returns within the deadline; Done() closes; every pending answer resolves; Bootstrap and calls after Close yield errors; releases return; transport closed exactly once; Conn.mu and the sender lock are free (VerifState hook); no goroutine with an rpc frame survives 10 s. Non-trivial: at least one call was pending when the connection went down.",
-	Quick:    100, Thorough: 1000,
+	Rule:  "base scenario = 2-10 drawn steps (local Bootstrap, calls with and without capability params, pipelined calls, cancellations, releases; peer Bootstrap, calls returning at once / held / returning a new capability, Finish, Return with capability or exception; gate openings; barriers). The scenario is first run fault-free to count its transport operations N, then re-run once for EVERY operation index 0..N-1 and every fault kind applicable to that operation (error from NewMessage, error from send, error or EOF from RecvMessage): exhaustive per scenario; in addition every prefix of the scenario is run and closed (Close injected at every step), and at every position after an application call the oldest and the newest call made so far are cancelled (cancellation injected at every step). Each run ends with Close once / twice / three times / three times concurrently. Oracle per run: every API call returns within the deadline; Done() closes; every pending answer resolves; Bootstrap and calls after Close yield errors; releases return; transport closed exactly once; Conn.mu and the sender lock are free (VerifState hook); no goroutine with an rpc frame survives 10 s. Non-trivial: at least one call was pending when the connection went down.",
+	Quick: 100, Thorough: 1000,
 	Gen: func(t *rapid.T) Case {
 		c := Case{CloseMode: rapid.IntRange(0, 3).Draw(t, "close"), OnlyIndex: -1}
 		for i, n := 0, rapid.IntRange(2, 10).Draw(t, "n"); i < n; i++ {
